@@ -167,10 +167,12 @@ Definition dir_saturation (k cg e : R) : R := e * cg * k ^ 3 / 2 / PI.
 
 Definition mutual_angle (a b : R) : R := pymod (a - b + PI) (2 * PI) - PI.
 
-(* st4_band_integrated_saturation, entry (i, j) *)
+(* st4_band_integrated_saturation, entry (i, j).  A direction exactly on the edge of the band
+   belongs to it: the code compares against width + 1e-9 rad *)
+Definition band_edge_tolerance : R := 1 / 1000000000.
 Definition band_term (q : st4b_par) (g : grid) (ks cgs : list R) (E : field) (i j jj : nat) : R :=
   let m := mutual_angle (gth g jj) (gth g j) in
-  if Rgt_dec (Rabs m) (sb_width_deg q * PI / 180) then 0
+  if Rgt_dec (Rabs m) (sb_width_deg q * PI / 180 + band_edge_tolerance) then 0
   else dir_saturation (rnth ks i) (rnth cgs i) (fnth E i jj) * powr (cos m) (sb_cospower q) * gdth g jj.
 
 Definition band_saturation (q : st4b_par) (g : grid) (ks cgs : list R) (E : field) : field :=
